@@ -73,7 +73,15 @@ class C07(Check):
             elif m < 0.87 and ctx:
                 t = rng.choice(ctx)
                 l.append({"c": {v: -c for v, c in t["c"].items()}, "k": -t["k"] - 1.0})        # infeasible only with context
-            elif m < 0.93:
+            elif m < 0.9 and ctx:
+                t = rng.choice(ctx)
+                v0 = sorted(t["c"])[0]
+                near = {"c": {v: (x * (1 + 5e-6) if v == v0 else x) for v, x in t["c"].items()}, "k": t["k"]}
+                l.insert(rng.randint(0, len(l)), near)                                              # almost a context row: must NOT be dropped syntactically
+            elif m < 0.94 and ctx:
+                t = rng.choice(ctx)
+                l = [dict(c=dict(t["c"]), k=t["k"]), dict(c=dict(t["c"]), k=t["k"] + float(rng.randint(1, 4)))] + l   # shared verbatim row first; the next is redundant only through it
+            elif m < 0.97:
                 l = G.rtl(rng, vs, rng.randint(1, 6))
             if rng.random() < 0.3:
                 rng.shuffle(l)
